@@ -804,7 +804,14 @@ class Interp:
                 # (a finally block that itself raises replaces the propagating exception, as in Python)
                 self.exec_block(st.finalbody, env, func, depth)
         elif t is ast.FunctionDef:
-            env[st.name] = ("closure", func.nested.get(st.name) or Func(st.name, st, func.module, func.cls, func), env)
+            nf = func.nested.get(st.name)
+            if nf is None or nf.node is not st:
+                # two defs of one name in different branches: each statement is its own function
+                by_node = func.__dict__.setdefault("_nested_by_node", {})
+                nf = by_node.get(id(st))
+                if nf is None:
+                    nf = by_node[id(st)] = Func(st.name, st, func.module, func.cls, func)
+            env[st.name] = ("closure", nf, env)
         elif t is ast.ImportFrom:
             # function-local import of repository names (used to dodge circular imports)
             modname = st.module or ""
